@@ -1373,6 +1373,9 @@ var JobNames = []string{
 }
 
 func (m *Model) applyJob(c Call, o Obs) []Hit {
+	if strings.Contains(o.Err, "LOCK-LEFT") {
+		return []Hit{hit("job-leaves-lock", []string{"C15", "C09"}, "maintenance job %s failed and left the database locked: %s", c.Op.Job, o.Err)}
+	}
 	if o.Err != "" {
 		// a job that fails once is not yet "stuck"; the convergence run decides
 		return []Hit{hit("job-failed", nil, "maintenance job %s failed: %s", c.Op.Job, o.Err)}
